@@ -10,6 +10,9 @@ use serde::{Deserialize, Serialize};
 pub struct Case {
     pub ops: Vec<Op>,
     pub n_extra: u8,
+    /// > 0: instead of a history, props/scale.rs::scale_rebuild with this many events
+    #[serde(default)]
+    pub scale: u32,
 }
 
 pub struct C16;
@@ -67,7 +70,7 @@ impl Prop for C16 {
                 if end_rebuild {
                     ops.push(Op::Rebuild);
                 }
-                Case { ops, n_extra }
+                Case { ops, n_extra, scale: 0 }
             })
             .boxed()
     }
@@ -80,8 +83,18 @@ impl Prop for C16 {
     fn max_shrink_iters(&self) -> u32 {
         400
     }
+    fn enumerated_subspaces(&self, tier: Tier) -> Vec<String> {
+        vec![format!("rebuild of large stores ({:?} events + 16 deletion requests with 300 targets each): four query plans, ten entry counts, all 4,800 id markers and the space bound before/after", tier.pick(vec![5_300u32, 12_500], vec![5_300u32, 12_500, 70_000]))]
+    }
+    fn enumerate(&self, tier: Tier) -> Vec<Case> {
+        tier.pick(vec![5_300u32, 12_500], vec![5_300u32, 12_500, 70_000]).into_iter().map(|n| Case { ops: Vec::new(), n_extra: 0, scale: n }).collect()
+    }
     fn check(&self, c: &Case) -> Outcome {
         let mut out = Outcome::default();
+        if c.scale > 0 {
+            crate::props::scale::scale_rebuild(c.scale as usize, &mut out);
+            return out;
+        }
         let mut w = match World::new(c.n_extra as usize) {
             Ok(w) => w,
             Err(f) => {
@@ -156,12 +169,16 @@ impl Prop for C16 {
                         return out;
                     }
                 };
-                let sum: usize = r.iter().map(|i| w.owned[*i].len()).sum();
+                // every event starts at the next multiple of 8 after its predecessor: the end of the last one is
+                // 8 + sum of the lengths rounded up to 8, minus the rounding of whichever event comes last
+                let sum: usize = r.iter().map(|i| (w.owned[*i].len() + 7) & !7).sum();
+                let raw: usize = r.iter().map(|i| w.owned[*i].len()).sum();
                 let bytes = w.st().stats().map(|s| s.event_bytes).unwrap_or(0);
-                if bytes < 8 + sum || bytes > 8 + sum + 7 * r.len() {
+                // (lower bound: no padding at all; upper bound: every event padded to the next multiple of 8)
+                if bytes < 8 + raw || bytes > 8 + sum {
                     out.fail(
                         "C16:rebuild-space",
-                        format!("step {stepno}: event_bytes {bytes} after rebuild, retrievable events need {} (+ up to {} padding)", 8 + sum, 7 * r.len()),
+                        format!("step {stepno}: event_bytes {bytes} after rebuild, the {} retrievable events need {}..={} (without / with alignment padding to 8 bytes)", r.len(), 8 + raw, 8 + sum),
                     );
                     return out;
                 }
